@@ -10,6 +10,7 @@ package main
 import (
 	"fmt"
 	"math/rand"
+	"strings"
 	"time"
 
 	"github.com/apache/thrift/lib/go/thrift"
@@ -136,7 +137,115 @@ func probeSpecs() (bigs, bursts []*seqSpec) {
 		bursts = append(bursts, s)
 		id++
 	}
+	// many callers at once, three requests in four naming a method the server
+	// has never seen (a fresh name each time)
+	for _, v := range []struct {
+		leg            string
+		conns, workers int
+	}{{"http", 16, 0}, {"nats", 4, 8}, {"pipe", 16, 0}, {"tcp", 16, 0}, {"shared", 16, 0}} {
+		for _, proto := range rig.Protocols {
+			s := &seqSpec{id: id, leg: v.leg, proto: proto, mode: "probe-concurrent-fresh-unknown-methods", conns: v.conns, workers: v.workers, rng: fixed}
+			nc := v.conns
+			if v.leg == "http" || v.leg == "shared" {
+				nc = 1
+			}
+			s.perConn = make([][]*request, nc)
+			for i := 0; i < 160; i++ {
+				k := kUnknown
+				if i%4 == 3 {
+					k = []int{kAdd, kPing, kEchoOK}[(i/4)%3]
+				}
+				r := newRequest(fixed, proto, k, genOpts{stream: v.leg == "pipe" || v.leg == "tcp", smallOnly: true})
+				if k == kUnknown {
+					setMethod(r, proto, fmt.Sprintf("fresh%d.%s", i, r.token))
+				}
+				r.idx = i
+				r.conn = i % nc
+				s.reqs = append(s.reqs, r)
+				s.perConn[r.conn] = append(s.perConn[r.conn], r)
+			}
+			for c := 0; c < nc; c++ {
+				sn := newSentinel(fixed, proto)
+				sn.conn, sn.idx = c, 100000+c
+				s.sentinel = append(s.sentinel, sn)
+			}
+			bursts = append(bursts, s)
+			id++
+		}
+	}
 	return bigs, bursts
+}
+
+// setMethod rebuilds r's frame with another method name (same headers, same
+// arguments are not kept: an empty argument struct).
+func setMethod(r *request, proto, name string) {
+	hdrs, _, err := wire.ParseFrame(r.frame)
+	if err != nil {
+		panic(err)
+	}
+	msg, err := wire.EncodeMessage(rig.TProtocolFactory(proto), &wire.Message{Name: name, Type: thrift.CALL, Body: wire.Struct(wire.F(1, wire.Str(r.token)))})
+	if err != nil {
+		panic(err)
+	}
+	r.method = name
+	r.frame = wire.BuildFrame(wire.MapToPairs(hdrs), msg)
+}
+
+// natsBoundary: replies of a NATS server whose frame size sweeps the 1 MiB
+// output limit byte by byte.  The fixed overhead of a getBig reply is
+// calibrated with a measured reply (op ids of constant width), then results of
+// limit-2 ... limit+3 framed bytes are asked for: up to the limit exactly one
+// REPLY with the string, above it exactly one EXCEPTION RESPONSE_TOO_LARGE;
+// ordinary requests in between and after must be answered too.
+func natsBoundary(id int, proto string, broker *rig.NatsServer, runOne func(*seqSpec) *seqResult) {
+	fixed := rand.New(rand.NewSource(20260930))
+	const limit = 1024 * 1024
+	seq := uint64(0)
+	getBig := func(n int) *request {
+		r := newRequest(fixed, proto, kGetBig, genOpts{smallOnly: true})
+		seq++
+		setOpid(r, proto, fmt.Sprintf("7%09d", uint64(id)*1000+seq))
+		r.opidForm = ""
+		big := strings.Repeat("0123456789abcdef", n/16+1)[:n]
+		if v, ok := plans.Load(r.token); ok {
+			v.(*plan).ret = big
+		}
+		e := wire.Struct(wire.F(0, wire.Str(big)))
+		r.expBody = &e
+		return r
+	}
+	mk := func(mode string, reqs []*request) *seqSpec {
+		s := &seqSpec{id: id, leg: "nats", proto: proto, mode: mode, conns: 1, workers: 2, rng: fixed}
+		for i, r := range reqs {
+			r.idx, r.conn = i, 0
+		}
+		s.reqs = reqs
+		s.perConn = [][]*request{reqs}
+		s.sentinel = []*request{newSentinel(fixed, proto)}
+		return s
+	}
+	const n0 = 1000000
+	cal := getBig(n0)
+	res := runOne(mk("probe-nats-reply-boundary-calibration", []*request{cal}))
+	if res == nil || cal.replyCount() != 1 {
+		return // judged (and reported) like any other sequence
+	}
+	r0 := len(cal.replies[0])
+	var reqs []*request
+	for d := -2; d <= 3; d++ {
+		n := n0 + (limit + d - r0)
+		r := getBig(n)
+		r.label = fmt.Sprintf("reply-frame-of-limit%+d-bytes", d)
+		if d > 0 {
+			r.kind = kOversize
+			r.expType, r.expExType, r.expBody = thrift.EXCEPTION, 100, nil
+		}
+		reqs = append(reqs, r, newRequest(fixed, proto, []int{kPing, kAdd, kEchoOK}[(d+2)%3], genOpts{smallOnly: true}))
+	}
+	s := mk("probe-nats-reply-boundary", reqs)
+	s.id = id + 1
+	s.note = fmt.Sprintf("reply frame sizes %d-2 ... %d+3 (calibrated: a getBig reply of %d result bytes is a frame of %d bytes)", limit, limit, n0, r0)
+	runOne(s)
 }
 
 // setOpid rebuilds r's frame with the given _opid value (other headers and the
